@@ -18,7 +18,7 @@ import math
 from fractions import Fraction
 
 from vlib.core import Harness
-from harness import kcommon, compart
+from harness import kcommon, compart, kscript
 
 STOCH_MODELS = ['SIR', 'SIS', 'SIRS', 'SEIR', 'Opinion', 'SIR_VariableInfection']
 ONE_BELOW = 1.0 - 2.0 ** -53
@@ -208,6 +208,129 @@ def gen_compart(rnd, i):
     if rnd.random() < 0.3:
         c['pv']['pSeed'] = 0.5
     return c
+
+
+# ---------------------------------------------------------------- element-less loci (D only)
+# A locus may report a size and decline to name an element (DrawSet.draw's documented None; the library's own
+# test_stochasticrates.DummyLocus does it): its events still have the rate probability x size, are still chosen in proportion
+# to it, and are still fired - with None for the element.
+
+def gen_dummy(rnd):
+    k = rnd.randrange(1, 5)
+    return {'kind': 'dummy', 'seed': rnd.randrange(1 << 30), 'maxtime': rnd.choice([1.0, 2.0, 3.0]),
+            'events': [{'size': rnd.choice([0, 1, 1, 2, 5]), 'p': rnd.choice([0.0, 0.25, 0.5, 1.0, 2.0]), 'elem': rnd.random() < 0.5,
+                        'real': rnd.random() < 0.25} for _ in range(k)]}
+
+
+def run_dummy(case):
+    import epydemic
+    from epydemic import Locus, Process, StochasticDynamics
+    from vlib.oracle import Oracle, install
+    import networkx
+
+    class Sized(Locus):
+        def __init__(self, name, n):
+            super().__init__(name)
+            self._n = n
+
+        def __len__(self):
+            return self._n
+
+        def draw(self):
+            return None
+
+    fired = []
+    iters = []
+
+    class P(Process):
+        def build(self_, params):
+            super().build(params)
+            for j, ev in enumerate(case['events']):
+                nm = 'D%d' % j
+                if ev['real']:
+                    loc = self_.addLocus(nm)
+                    for x in range(ev['size']):
+                        loc.add(x)
+                else:
+                    self_.addLocus(nm, Sized(nm, ev['size']))
+
+                def h(t, e, j=j):
+                    fired.append([len(iters) - 1, j, t, e])
+                (self_.addEventPerElement if ev['elem'] else self_.addFixedRateEvent)(nm, ev['p'], h, name=nm)
+    proc = P()
+    proc.setMaximumTime(case['maxtime'])
+    dyn = StochasticDynamics(proc, networkx.path_graph(2))
+    orc = install(Oracle(seed=case['seed']))
+    orig = dyn.eventRateDistribution
+
+    def erd(t):
+        trs = orig(t)
+        iters.append({'t': t, 'rates': [r for (_, r, _, _) in trs], 'names': [n for (_, _, _, n) in trs], 'nrand': len(orc.values('random'))})
+        if len(iters) > 400:
+            raise kscript.Budget('run exceeds the harness budget')
+        return trs
+    dyn.eventRateDistribution = erd
+    taps = []
+    dyn.eventFired = lambda t, p, name, e: taps.append([t, name, e])
+    exc = None
+    try:
+        dyn.set({}).run(fatal=True)
+    except kscript.Budget:
+        pass
+    except Exception as e:
+        exc = type(e).__name__ + ': ' + str(e)
+    return {'exception': exc, 'iters': iters, 'fired': fired, 'taps': taps, 'rands': [e[1] for e in orc.values('random')],
+            'gsteps': [], 'stats': {'kind_dummy': 1, 'dummy_events_fired': len(fired)}}
+
+
+def direct_dummy(case, obs):
+    if obs['exception']:
+        return [{'signature': 'run-raised:dummy:' + obs['exception'].split(':')[0], 'detail': obs['exception']}]
+    v = []
+    evs = case['events']
+    its = obs['iters']
+    for i, it in enumerate(its):
+        want = sorted(('D%d' % j, Fraction(ev['p']) * ev['size'] if ev['elem'] else Fraction(ev['p'])) for j, ev in enumerate(evs))
+        got = sorted((n, Fraction(r)) for n, r in zip(it['names'], it['rates']))
+        if want != got:
+            v.append({'signature': 'rate-table-differs:dummy', 'detail': {'iteration': i, 'rates': it['rates'], 'names': it['names']}})
+            break
+        a = exact_total(it['rates'])
+        calls = [f for f in obs['fired'] if f[0] == i]
+        nr = (its[i + 1]['nrand'] if i + 1 < len(its) else len(obs['rands'])) - it['nrand']
+        if a == 0:
+            if calls:
+                v.append({'signature': 'event-although-total-rate-zero:dummy', 'detail': {'iteration': i}})
+            continue
+        if nr == 0 and i + 1 == len(its):
+            continue                      # the loop ended (equilibrium) before this distribution was used
+        # the kind chosen by the threshold r2*a (r2 is the second variate of the iteration when there are several kinds)
+        if len(it['rates']) > 1 and nr >= 2:
+            xc = Fraction(obs['rands'][it['nrand'] + 1]) * a
+            acc, ok = Fraction(0), []
+            for j, r in enumerate(it['rates']):
+                lo, acc = acc, acc + Fraction(r)
+                if lo <= xc <= acc and r > 0:
+                    ok.append(j)
+        else:
+            ok = [j for j, r in enumerate(it['rates']) if r > 0][:1] if len(it['rates']) == 1 else list(range(len(it['rates'])))
+        sizes = {('D%d' % j): ev['size'] for j, ev in enumerate(evs)}
+        if len(calls) != 1:
+            # nothing fires only if the chosen locus is empty (size 0 with a fixed-rate event of positive probability)
+            may_be_empty = any(sizes[it['names'][j]] == 0 for j in ok)
+            if not (len(calls) == 0 and may_be_empty):
+                v.append({'signature': 'not-exactly-one-event-in-an-iteration-with-positive-rate:dummy',
+                          'detail': {'iteration': i, 't': it['t'], 'rates': it['rates'], 'calls': calls, 'acceptable_kinds': ok}})
+            continue
+        _, j, t, e = calls[0]
+        idx = it['names'].index('D%d' % j)
+        if idx not in ok:
+            v.append({'signature': 'kind-interval-does-not-contain-threshold:dummy', 'detail': {'iteration': i, 'fired': j, 'acceptable': ok, 'rates': it['rates']}})
+        if not evs[j]['real'] and e is not None:
+            v.append({'signature': 'element-invented-for-an-element-less-locus:dummy', 'detail': {'iteration': i, 'e': e}})
+    if len(obs['taps']) != len(obs['fired']):
+        v.append({'signature': 'taps-differ-from-events:dummy', 'detail': {'taps': len(obs['taps']), 'events': len(obs['fired'])}})
+    return v
 
 
 def run_probed(case):
@@ -455,6 +578,8 @@ class H(Harness):
             base.append({'kind': 'table', 'table': gen_table(rnd), 'dynamics': 'stochastic', 'seed': rnd.randrange(1 << 30),
                          'prerun': rnd.choice([False, False, True, 'vary'])})
         out = list(base)
+        for _ in range(max(20, n // 10)):
+            out.append(gen_dummy(rnd))
         for c in base:
             if rnd.random() < 0.34:
                 b = boundary_variant(c, rnd)
@@ -463,6 +588,8 @@ class H(Harness):
         return out
 
     def execute(self, case):
+        if case['kind'] == 'dummy':
+            return run_dummy(case)
         obs = run_probed(case)
         st = {}
         if not obs.get('skipped') and not obs.get('exception'):
@@ -481,10 +608,12 @@ class H(Harness):
         return obs
 
     def direct(self, case, obs):
+        if case['kind'] == 'dummy':
+            return direct_dummy(case, obs)
         return direct_c02(case, obs)
 
     def to_coq(self, case, obs):
-        if obs.get('skipped'):
+        if obs.get('skipped') or case['kind'] == 'dummy':
             return None
         if case['kind'] == 'compart':
             from harness import compart_coq
@@ -500,12 +629,16 @@ class H(Harness):
     def nontrivial(self, case, obs):
         if obs.get('skipped') or obs.get('exception'):
             return None
+        if case['kind'] == 'dummy':
+            return repr(sorted(case.items(), key=str)) if obs['fired'] else None
         pos = [s for s in obs['gsteps'] if s['rands']]
         if len(pos) >= 2 and any(s['fired'] for s in pos):
             return repr(sorted(((k, v) for k, v in case.items()), key=str))
         return None
 
     def sample_view(self, case, obs):
+        if case['kind'] == 'dummy':
+            return {'case': case, 'iterations': obs['iters'][:4], 'fired': obs['fired'][:6]}
         return {'case': {k: v for k, v in case.items() if k != 'script'}, 'boundary': case.get('boundary'),
                 'iterations': [{'t': s['t'], 'rates': s['rates'], 'rands': s['rands'], 'chosen': [x[0] for x in s['lens']],
                                 'fired': [[x[0], x[1], x[2]] for x in s['fired']]} for s in (obs.get('gsteps') or [])[:4]],
